@@ -95,6 +95,14 @@ type world struct {
 	conns    []net.Conn
 }
 
+// noZone strips the zone of a scoped IPv6 literal.
+func noZone(h string) string {
+	if i := strings.IndexByte(h, '%'); i >= 0 {
+		return h[:i]
+	}
+	return h
+}
+
 func normHost(h string) string { return strings.TrimSuffix(strings.ToLower(h), ".") }
 
 func (w *world) lookup(ctx context.Context, network, host string) ([]net.IPAddr, error, bool) {
@@ -141,7 +149,7 @@ func (w *world) dial(ctx context.Context, network, address string) (net.Conn, er
 	w.mu.Lock()
 	rec := dialRec{Addr: address, ViaHost: w.lastHost}
 	host, _, _ := net.SplitHostPort(address)
-	if ip := net.ParseIP(host); ip != nil {
+	if ip := net.ParseIP(noZone(host)); ip != nil {
 		for _, a := range w.lastIPs {
 			if a == ip.String() {
 				for _, al := range w.f.Allowed {
@@ -367,7 +375,7 @@ func runFetch(f Fetch) (vs []core.Violation, w *world) {
 			mk("proxy-used", "", "a connection was opened to the proxy configured in the environment: "+d.Addr)
 			continue
 		}
-		ip := net.ParseIP(host)
+		ip := net.ParseIP(noZone(host))
 		if ip == nil {
 			mk("dial-by-name", "", fmt.Sprintf("a connection was requested by name (%s): the address checked is not necessarily the address connected to", d.Addr))
 			continue
@@ -494,6 +502,20 @@ func genHost(rng *rand.Rand) string {
 		return []string{"2130706433", "0177.0.0.1", "0x7f.1", "127.1", "0x7f000001", "017700000001"}[rng.IntN(6)] // numeric-looking hosts
 	case 3:
 		return "localhost"
+	case 4:
+		// an IPv6 literal with a zone (RFC 6874: "%25" in the URL). net.ParseIP does not accept it,
+		// the resolver and netip.ParseAddr do; a 4-in-6 literal with a zone is dialed as plain IPv4
+		var ip string
+		switch rng.IntN(4) {
+		case 0:
+			ip = genIP(rng, false)
+		default:
+			ip = genIP(rng, true)
+		}
+		if !strings.Contains(ip, ":") {
+			ip = "::ffff:" + ip
+		}
+		return ip + "%25" + []string{"lo", "eth0", "1", "en0"}[rng.IntN(4)]
 	default:
 		h := names[rng.IntN(len(names))]
 		if rng.IntN(6) == 0 {
